@@ -392,6 +392,19 @@ def run(tier):
         feats.update(r["feats"])
         for (sig, what) in r["viol"]:
             v.violation(sig, "%s mode: %s" % (job[3], what), r.get("witness"))
+    # the payload's type is the type of the binding in scope at the emit (C05's binding-history battery, judged here as the statement's
+    # "typed parameter or binding ... and `unknown` otherwise")
+    from . import c05
+    sjobs = [(cli, k_, mode) for k_ in range(len(c05.SCOPE_TYPES)) for mode in ("none", "zod")]
+    for (job, r) in zip(sjobs, common.pmap(c05.run_scope_cases, sjobs)):
+        if "inconclusive" in r or "blocked" in r:
+            continue
+        v.count("payload_binding_scenarios", r["n"])
+        for j in range(r["n"]):
+            v.case(("scope", job[1], j, job[2]), nontrivial=True)
+        for (label, tr, allowed, got) in r["bad"]:
+            v.violation("C12 payload-type binding-in-scope %s" % label, "%s mode, probe type %s: the payload's type is %s, the listener says %s" % (job[2], tr, " or ".join(allowed), got),
+                        proj.witness_of(r["files"], job[2], extra={"scenario": label}))
     v.extra["features_covered"] = sorted(feats)
     rule = ("a case is one generated project with 1-5 distinct events (names over [A-Za-z0-9] with '-', '_', ':', '/' separators), each emitted from "
             "1-3 functions in 1-3 files, in one of 18 placements, on one of 8 documented receiver forms, via emit or emit_to, with one of 34 payload "
